@@ -26,5 +26,7 @@ MANIFEST = dict(
          "exhaustively for all short games on 3x3/4x4.",
     ref='5.15', technique='Coq proofs of canonical_legal_images, canonical_class_invariant, canonical_idempotent + model/implementation '
                           'differential + independent class-invariance / idempotence oracle (exhaustive on short games)',
-    note="Trusted: Coq kernel, extraction, transcription of Canonical. The theorems speak about accepted games (canonical ms = Ok cs); that every "
-         "legal game is accepted is not proved (covered by the correspondence and the oracle).")
+    note="Trusted: Coq kernel, extraction, transcription of Canonical. Also proved: Canonical accepts every legal game (canonical_total), so class "
+         "invariance holds in the form `legal ms -> canonical (image of ms) = canonical ms`. Hypotheses that remain, all explicit: NoCollision on "
+         "the hashes compared; for sizes 7, 8 no stack above 64 on the boards produced (the representation limit of the code, C01). The model's "
+         "Position.Move rejects Pass (the real code accepts it): games with a Pass are outside the theorems, as in C01.")
